@@ -15,7 +15,7 @@ tiers  : quick    = exhaustive corner set (all 256 switch combinations x both om
          thorough = the whole lattice: 256 switch sets x 8 flips x 2 omega signs x 4 pixel-size sign pairs x 4 peaks
                     x 4 omegas = 262144 records
 """
-import os, json, time
+import json, time
 import numpy as np
 import common
 import c01_geometry as G
@@ -28,18 +28,29 @@ def nontrivial(par):
     return any(par["sw"]) or par["flip"] != 1 or par["sgn"] != 1 or par["zs"] < 0 or par["ys"] < 0
 
 
-def judge_batch(chk, rt, group, lengths, stats):
+def judge_batch(chk, rt, group, lengths, stats, replaying=None):
     orc = G.Oracle(group)
     for L in lengths:
         o = orc if L is None else orc.tiled(L)
-        J = G.judge_fwd(rt, o)
+        # small batches: 2 OpenMP threads (cheap to wake); the 4097-row batches: 1, 4 and the default thread count
+        for nt in ((2,) if (L or 0) < 4097 else (1, 4, None)):
+            with G.omp_threads(rt, nt):
+                J = G.judge_fwd(rt, o, routes=("py", "c", "cf", "numba", "rg") if nt in (2, None) else ("c", "cf"))
+            stats["thread_counts"].add(nt or stats["default_threads"])
+            if J.problems:
+                break
         stats["comparisons"] += J.ncmp
         stats["worst_ratio"] = max(stats["worst_ratio"], J.worst)
         if J.problems:
-            chk.violation("%s%s [%d disagreeing outputs; parameters %s]" % (
-                J.problems[0], "" if L is None else " [batch length %d]" % L, len(J.problems),
-                json.dumps(G.pars_of(group[0]["par"]), sort_keys=True)),
-                {"kind": "fwd", "records": group, "length": L, "problems": J.problems[:20]})
+            what = "%s%s [%d disagreeing outputs; parameters %s]" % (
+                J.problems[0], "" if L is None else " [batch length %d, %s OpenMP threads]" % (L, nt or "default"), len(J.problems),
+                json.dumps(G.pars_of(group[0]["par"]), sort_keys=True))
+            if replaying:                    # re-judging a saved case: nothing is written
+                print("  violation: %s" % what)
+                chk.violations.append((what, replaying))
+            else:
+                chk.violation(what, {"kind": "fwd", "records": group, "length": L, "threads": nt,
+                                     "problems": J.problems[:20]})
     return orc
 
 
@@ -59,14 +70,16 @@ def run(tier, replay=None):
         "from the exact integers emitted by the specification",
         "eta is not compared where (dy, dz) = (0, 0) exactly; tolerance |x-e| <= 1e-9*scale + 1e-12, angles 1e-6 degree",
     ]
-    stats = {"comparisons": 0, "worst_ratio": 0.0}
+    stats = {"comparisons": 0, "worst_ratio": 0.0, "thread_counts": set(),
+             "default_threads": int(rt.c.cimaged11_omp_get_max_threads())}
     if replay:
         case = json.load(open(replay))["case"]
-        judge_batch(chk, rt, case["records"], [case.get("length")], stats)
+        judge_batch(chk, rt, case["records"], [case.get("length")], stats, replaying=replay)
         chk.traces += len(case["records"])
         chk.case(replay)
         chk.sample({"replayed": replay})
         chk.exhaustive = False
+        stats["thread_counts"] = sorted(stats["thread_counts"])
         chk.notes.update(stats)
         return chk.finish()
 
@@ -76,7 +89,7 @@ def run(tier, replay=None):
         recs += G.run_geometry(chk, "Geometry forward -simulate 3000", "fwd_sim", workers=4, simulate=750, depth=13,
                                timeout=600)
         chk.exhaustive = False
-        frac = 0.03
+        frac = 0.015
     else:
         recs = G.run_geometry(chk, "Geometry forward corner set (exhaustive, coverage)", "fwd_corner", workers=WORKERS,
                               coverage=True, actions=G.FWD_ACTIONS, timeout=600)
@@ -114,6 +127,7 @@ def run(tier, replay=None):
             chk.sample({"record": group[-1], "parameters": G.pars_of(par)})
         if len(chk.violations) > 24:
             break
+    stats["thread_counts"] = sorted(stats["thread_counts"])
     chk.notes.update(stats)
     chk.notes["batches"] = len(groups)
     chk.notes["replay_s"] = round(time.time() - t0, 1)
@@ -125,7 +139,9 @@ def run(tier, replay=None):
         chk.notes["records_" + k] = int(seen[k])
     chk.notes["routes"] = ["transform (reference)", "Ctransform + raw cImageD11", "columnfile fast/slow", "numba point_by_point",
                            "refinegrains.compute_gv"]
-    # vacuity guards
+    # vacuity guards (only meaningful for a run that was not cut short by violations)
+    if chk.violations:
+        return chk.finish()
     need = 10 if tier == "thorough" else 8
     for s, v in seen_angles.items():
         if len(v) < need:
@@ -140,8 +156,14 @@ def run(tier, replay=None):
 
 def selftest(rt=None, groups=None):
     """a perturbed expectation must be rejected by the comparison"""
-    if rt is None or not groups:
-        return
+    if rt is None:
+        import sys
+        if "ImageD11" not in sys.modules:
+            common.use_shadow(common.build_shadow("normal"))
+        rt = G.Routes(numba_routes=False)
+    if not groups:
+        groups = G.group_records(G.run_geometry(common.Check(PROP, "selftest"), "selftest corner", "fwd_corner",
+                                                workers=WORKERS, timeout=600))
     group = next(g for g in groups if any(g[0]["par"]["sw"][:5]) and any(g[0]["par"]["t"]))
     if G.judge_fwd(rt, G.Oracle(group)).problems:
         return          # the unchanged case already fails: nothing to self-test against
